@@ -74,7 +74,9 @@ def block_fn(M, module, other, extra):
 
 
 class ContractionAlgebra:
+    fp_domain = {"zero_prob": 0.0}  # coefficients are non-zero by the property's precondition
     fp = True  # cross-check: the same contract on the unmodified float64 code at sampled inputs (bounded)
+    fp_nsamp = (1, 3)
 
     def fp_shapes(self, tier):
         sh = self.shapes(tier)
